@@ -420,7 +420,7 @@ func (c *Case) RunProposal(pr base.ProposalSignFact, order []int, sc Sched) (obs
 	}
 	defer func() { _ = pp.Cancel() }()
 
-	ctx, cancel := context.WithTimeout(context.Background(), 30*time.Second)
+	ctx, cancel := context.WithTimeout(context.Background(), 120*time.Second)
 	defer cancel()
 
 	manifest, err := pp.Process(ctx, ivp)
